@@ -332,10 +332,11 @@ def rules(repo, tier):
     from ..memo import rule_memo
     from ..optional import rule_optional
     from ..mode import mode_rules
+    from ..callsig import rule_callsig
     from ..axisdefault import rule_axisdefault
     return list(_rules_core(repo, tier)) + [rule_memo(repo, 'C16.MEMO', 'history independence: nothing computed from the contents of a tensor argument is kept '
                                                       'under the identity, address or version of that tensor, in module-level storage, or published from a generator '
                                                       'before it is complete - a later call with the same object and other contents must not be answered from it',
                                                       ['pypose.module.imu_preintegrator', 'pypose.basics.ops'], floor=3),
-            rule_optional(repo, 'C16.OPT', ['pypose.module.imu_preintegrator', 'pypose.basics.ops'])] + mode_rules(repo, 'C16', ['pypose.module.imu_preintegrator', 'pypose.basics.ops']) + [
+            rule_optional(repo, 'C16.OPT', ['pypose.module.imu_preintegrator', 'pypose.basics.ops'])] + mode_rules(repo, 'C16', ['pypose.module.imu_preintegrator', 'pypose.basics.ops']) + [rule_callsig(repo, 'C16.SIG', ['pypose.module.imu_preintegrator', 'pypose.basics.ops'])] + [
             rule_axisdefault(repo, 'C16.AXDEF', ['pypose.module.imu_preintegrator', 'pypose.basics.ops'])]
